@@ -6,7 +6,7 @@ from rules import timing as TM
 
 def run(ctx):
     ctx.rule("R-DELIVER-GUARD", "exact payload or nothing: delivery only from a complete, in-order reassembly", floor=6)
-    ctx.rule("R-TIMEOUT-CONST", "timeouts and abort reasons equal the SAE values", floor=19)
+    ctx.rule("R-TIMEOUT-CONST", "timeouts and abort reasons equal the SAE values", floor=12)
     ctx.rule("R-DEADLINE-FINITE", "every stored deadline is now (+ SAE timeout <= 1.25 s / 3 s, or a configured interval)", floor=10)
     ctx.rule("R-EXPIRY-SHAPE", "expiry: abort(TIMEOUT) in the right direction iff destination-specific, session removed", floor=10)
     ctx.rule("R-REARM", "every expiry path deletes the session or re-arms it in the future", floor=16)
